@@ -20,13 +20,13 @@ PadLoopN(l, w, n) == IF l[Len(l)] <= LS * (n - 1) \/ l[1] >= 0 THEN PadLoopN(Ref
 RecOK == ri > 0 =>
     LET r == Recs[ri] IN
     CASE r.kind = "pad" ->
-            LET want == Padded(r.sig, r.pw, r.mode, r.parab = 1) IN
+            LET want == PaddedWith(r.sig, r.pw, r.mode, r.parab = 1, r.mm) IN      \* mm: the configured magnitude padding
             IF want = NoExtrema THEN Is(r.none, 1, "get_padded_extrema.none")
             ELSE /\ Is(r.none, 0, "get_padded_extrema.none")
                  /\ Is(r.locs, want[1], "get_padded_extrema.locs")
                  /\ Is(r.mags, want[2], "get_padded_extrema.mags")
       [] r.kind = "env" ->
-            LET want == Padded(r.sig, r.pw, EnvMode(r.emode), r.parab = 1)
+            LET want == PaddedWith(r.sig, r.pw, EnvMode(r.emode), r.parab = 1, r.mm)
                 e0 == Extrema(r.sig, EnvMode(r.emode), FALSE)
             IN
             IF want = NoExtrema THEN Is(r.none, 1, "interp_envelope.none")
